@@ -39,7 +39,7 @@ META = {
     "C11": ("exploration", "round-trip oracle over history-generated states in both formats with strict (type-tagged) projections; second save through one Persistence object; the same round trip in a child interpreter under a non-UTF-8 locale",
             "States produced by real histories (with transient state populated) are saved and loaded in JSON and pickle; projections compared strictly, transient state must be empty after load.",
             "Projection = user-visible node/child/value tree and node attributes."),
-    "C12": ("fault_enumeration", "crash/fault injection at every file operation of a save (in-process FS shim with forked crash children; strace syscall injection on a real process), old-or-new oracle on the next load",
+    "C12": ("fault_enumeration", "crash/fault injection at every file operation of a save (in-process FS shim with forked crash children; strace syscall injection on a real process), old-or-new oracle on the next load; two concurrent saves from real threads under a file-operation scheduler (all schedules with at most two preemptions, every directory state in between loaded)",
             "Every file operation of the observed save sequence is used as crash point and as failing operation, for every prior on-disk configuration and both formats, with and without loss of unsynced data; the next load must yield old or new state and the next save must succeed.",
             "Directory operations are durable in issue order; file data is durable only after fsync."),
     "C13": ("fault_enumeration", "exhaustive damage enumeration (every truncation offset, zero fill) x backup variants; loaded state must be a complete saved state or empty, never an exception",
@@ -51,7 +51,7 @@ META = {
     "C15": ("fault_enumeration", "fault injection at every file operation and at every serialisation write point (concurrent mutation), on the real timer chain / async save loop in virtual time",
             "After each injected failure: previous file loadable, state still marked unsaved, next tick armed, next clean tick persists current state, stop() works.",
             "Concurrent mutation is produced deterministically at write points (a stand-in for the poll thread running while the timer thread serialises)."),
-    "C16": ("exploration", "controlled-scheduler race detection: sys.monitoring LINE/INSTRUCTION events drive real threads through all interleavings up to a preemption bound; exactly-once/FIFO log checker for producers x pump; real stress of the real serial/TCP gateways on a pty / loopback socket under connection churn (device receive log: exactly-once, order, pump alive, delivery after the faults stop)",
+    "C16": ("exploration", "controlled-scheduler race detection: sys.monitoring LINE/INSTRUCTION events drive real threads through all interleavings up to a preemption bound; exactly-once/FIFO log checker for producers x pump; real stress of the real serial/TCP gateways on a pty / loopback socket under connection churn (device receive log: exactly-once, order, pump alive, delivery after the faults stop, stop() returns - blocked threads are identified by stack sampling)",
             "All schedules up to the preemption bound of send vs connection_lost/disconnect/reconnect at line granularity; stress run of several producers with the real pump checked by an exactly-once per-producer-FIFO log checker.",
             "Exhaustive only below the stated preemption bound."),
     "C17": ("exploration", "round-trip and acceptance oracles over enumerated prefixes/topics; subscription coverage checker over presentation histories and restored states; raising-callback injection",
@@ -63,7 +63,7 @@ META = {
     "C19": ("exploration", "differential runtime oracle across chunkings and flavours through the real protocol classes",
             "Same byte stream fed with every single cut point / 1-byte / 120-byte / random splits to the threaded and asyncio protocols; final state and emitted sequence compared.",
             "With a lagging threaded pump only the interleaving of direct replies vs spawned jobs may differ (known finding F13)."),
-    "C20": ("fault_enumeration", "deterministic simulation (virtual-time threads and asyncio loop) of connection lifetimes under enumerated fault sequences; offline checker over the event log; real-device sample and churn runs (real loopback sockets and ptys, real threads / event loop, wall clock, anomalies must reproduce)",
+    "C20": ("fault_enumeration", "deterministic simulation (virtual-time threads and asyncio loop) of connection lifetimes under enumerated fault sequences; offline checker over the event log; real-device sample and churn runs (real loopback sockets and ptys, real threads / event loop, wall clock, anomalies must reproduce in fresh interpreters; raising application callbacks; a second gateway that keeps dialling)",
             "Fault sequences up to a length bound over connect/read/write failures, peer closes, disconnects and stop; watchdog latency patterns on a simulated clock.",
             "Fakes mimic failure behaviour of serial ports and sockets; 'about twice' is read as [2, 2 x rt + 0.75 s] for the threaded and [2,3] x reconnect_timeout for the asyncio gateway (which looks at its deadline every rt + 0.1 s)."),
 }
